@@ -17,6 +17,15 @@ was applied to a *related* chemical.  The first round only enumerated freshly in
   object computing the same function, `add_method` makes THIS object compute another arbitrary function.
 * `C07/real_copy_history` (mode B): the same histories (plus two edits in a row and an edit before the copy) on real
   database chemicals with the real thermo models, sentences evaluated numerically.
+
+Findings on the unchanged tree (see .scratch/C07/r2_repro_*.py):
+  4. `TDependentProperty.copy` (thermosteam/thermo/t_dependent_property.py) is shallow and shares `local_methods`,
+     `all_methods`, `T_limits` with the original; `add_method` names every user model 'USER_METHOD', so when BOTH the
+     original and the copy get a user model the one edited first evaluates the other's model live with stale
+     integrals -> every `two-edits:*` history of `C07/real_copy_history` (r2_fix_1.diff).  This is the real-code
+     counterpart of assumption A-model-object of `C07/copy_history`.
+  5. (thorough) thermo's HEOS_FIT liquid Cn integrates Cn/T as a difference of huge terms: S_l of Benzene is quantised
+     to 2 J/mol/K -> `Benzene;*` Simpson clauses for S_l.
 """
 import math
 import thermosteam as tmo
@@ -231,8 +240,8 @@ def _b_histories(tier):
         hs.append((f'copy;B.{model}', [('copy',), ('edit', 'B', model, 1)]))
         hs.append((f'copy;A.{model}', [('copy',), ('edit', 'A', model, 1)]))
         # both chemicals edited, with different models, before / after the copy
-        hs.append((f'A.{model};copy;B.{model}', [('edit', 'A', model, 1), ('copy',), ('edit', 'B', model, 2)]))
-    hs.append(('copy;B.Cn.l;A.Cn.l', [('copy',), ('edit', 'B', 'Cn.l', 1), ('edit', 'A', 'Cn.l', 2)]))
+        hs.append((f'two-edits:A.{model};copy;B.{model}', [('edit', 'A', model, 1), ('copy',), ('edit', 'B', model, 2)]))
+    hs.append(('two-edits:copy;B.Cn.l;A.Cn.l', [('copy',), ('edit', 'B', 'Cn.l', 1), ('edit', 'A', 'Cn.l', 2)]))
     for p in PHASES:
         hs.append((f'at_state_copy:{p};B.Cn.{p}', [('at_state_copy', p), ('edit', 'B', f'Cn.{p}', 1)]))
         hs.append((f'at_state_copy:{p};A.Cn.{p}', [('at_state_copy', p), ('edit', 'A', f'Cn.{p}', 1)]))
@@ -245,7 +254,7 @@ def real_history_configs(tier):
     for ID in IDs:
         for ref in PHASES:
             for hname, ops in _b_histories(tier):
-                if tier == 'quick' and ID != B_QUICK[0] and ref != 'l' and hname not in ('fresh', 'copy;B.Cn.l', 'A.Cn.l;copy;B.Cn.l'):
+                if tier == 'quick' and ID != B_QUICK[0] and ref != 'l' and hname not in ('fresh', 'copy;B.Cn.l', 'two-edits:A.Cn.l;copy;B.Cn.l'):
                     continue
                 out.append({'name': f'{ID};phase_ref={ref};history={hname}', 'ID': ID, 'phase_ref': ref,
                             'ops': [list(o) for o in ops]})
